@@ -13,6 +13,7 @@ verus! {
 
 //@verify explode_function
 //@verify flatten_fn_update
+//@verify flatten_update_function
 
 fn main() {}
 } // verus!
